@@ -277,3 +277,36 @@ def fresh_workdir(prop, tier, seed):
 
 def sha(s):
     return hashlib.sha256(s.encode() if isinstance(s, str) else s).hexdigest()
+
+
+def run_entry(exe, entry, workdir, v, nshards=1, env=None, timeout=900, tag=None, threads=None):
+    """Run an in-crate harness entry (`--exact <entry>`) as nshards processes with VERIF_* parameters.
+
+    A non-zero exit (harness assertion, crash) or timeout is inconclusive: harness entries only record."""
+    tag = tag or entry.replace("::", "_")
+
+    def argv(i):
+        e = {"VERIF_OUT": workdir, "VERIF_SEED": str(v.seed), "VERIF_TIER": v.tier, "VERIF_SHARD": str(i),
+             "VERIF_SHARDS": str(nshards), "RUST_BACKTRACE": "0", "RUST_LOG": "off"}
+        e.update(env or {})
+        a = [exe, "--exact", entry, "--nocapture"]
+        if threads:
+            a += ["--test-threads", str(threads)]
+        return a, e
+
+    res = run_shards(argv, nshards, workdir, timeout=timeout, tag=tag)
+    for r in res:
+        if r["rc"] != 0:
+            raise Inconclusive("harness entry %s shard %d exited with %s (see %s)" % (entry, r["shard"], r["rc"], r["stdout"]))
+        with open(r["stdout"]) as f:
+            txt = f.read()
+        if "1 passed" not in txt:
+            raise Inconclusive("harness entry %s shard %d did not run (see %s)" % (entry, r["shard"], r["stdout"]))
+    return res
+
+
+def check_started_ended(events, what="harness"):
+    starts = sum(1 for e in events if e.get("kind") == "start")
+    ends = sum(1 for e in events if e.get("kind") == "end")
+    if starts == 0 or starts != ends:
+        raise Inconclusive("%s: %d start / %d end events (a run did not finish)" % (what, starts, ends))
